@@ -30,6 +30,8 @@ type Broker struct {
 	// connection never overlaps the handler of the connection taking it over: the order the broker's code intends.
 	// The overlapping interleavings are explored on purpose by the schedule-directed checks (C13, C14, C16).
 	FreeTeardown bool
+	// WriteDelay is applied to every connection opened afterwards (see Conn.writeDelay)
+	WriteDelay time.Duration
 }
 
 // Link is one connection plus the goroutine in which its handler (EstablishConnection) runs.
@@ -92,6 +94,7 @@ func (b *Broker) Open(name string) *Link {
 	b.mu.Lock()
 	b.nextConn++
 	c := newConn(b.nextConn)
+	c.writeDelay = b.WriteDelay
 	l := &Link{B: b, Conn: c, Name: name, done: make(chan struct{}), parkReq: map[string]bool{}, release: map[string]chan struct{}{}}
 	if !b.FreeTeardown {
 		l.parkReq[TeardownPoint] = true
@@ -115,6 +118,7 @@ func (b *Broker) OpenParked(name string, points ...string) *Link {
 	b.mu.Lock()
 	b.nextConn++
 	c := newConn(b.nextConn)
+	c.writeDelay = b.WriteDelay
 	l := &Link{B: b, Conn: c, Name: name, done: make(chan struct{}), parkReq: map[string]bool{}, release: map[string]chan struct{}{}}
 	for _, p := range points {
 		l.parkReq[p] = true
